@@ -24,3 +24,8 @@ package tscommon
 // callers reach this only behind annotations.IsRootUnwrap (exactly one field)
 //@ func RootUnwrapTSType(msg *protogen.Message) (r string)
 //@   requires bounds: len(msg.Fields) >= 1
+
+//@ func (ms *MessageSet) AddEnum(enum *protogen.Enum)
+//@   requires enum != nil
+//@   modifies ms.enums
+//@   ensures inDom(ms.enums, string(enum.Desc.FullName()))
